@@ -432,6 +432,15 @@ impl ArenaState {
 
 pub struct SimAlloc;
 
+/// Bytes currently obtained from the system allocator (everything that is not a managed block: the tables, vectors
+/// and boxes owned by managed objects and by the VM, and the worker's own bookkeeping). Signed: a block may be released
+/// by another thread than the one that obtained it.
+pub static SYSTEM_LIVE_BYTES: std::sync::atomic::AtomicIsize = std::sync::atomic::AtomicIsize::new(0);
+
+pub fn system_live_bytes() -> isize {
+  SYSTEM_LIVE_BYTES.load(std::sync::atomic::Ordering::Relaxed)
+}
+
 unsafe impl GlobalAlloc for SimAlloc {
   #[inline]
   unsafe fn alloc(&self, layout: Layout) -> *mut u8 {
@@ -441,7 +450,11 @@ unsafe impl GlobalAlloc for SimAlloc {
         return arena.alloc(layout);
       }
     }
-    System.alloc(layout)
+    let ptr = System.alloc(layout);
+    if !ptr.is_null() {
+      SYSTEM_LIVE_BYTES.fetch_add(layout.size() as isize, std::sync::atomic::Ordering::Relaxed);
+    }
+    ptr
   }
 
   #[inline]
@@ -449,6 +462,7 @@ unsafe impl GlobalAlloc for SimAlloc {
     if in_arena(ptr) {
       ARENA.state().dealloc(ptr, layout);
     } else {
+      SYSTEM_LIVE_BYTES.fetch_sub(layout.size() as isize, std::sync::atomic::Ordering::Relaxed);
       System.dealloc(ptr, layout)
     }
   }
@@ -478,7 +492,11 @@ unsafe impl GlobalAlloc for SimAlloc {
       }
       new_ptr
     } else {
-      System.realloc(ptr, layout, new_size)
+      let new_ptr = System.realloc(ptr, layout, new_size);
+      if !new_ptr.is_null() {
+        SYSTEM_LIVE_BYTES.fetch_add(new_size as isize - layout.size() as isize, std::sync::atomic::Ordering::Relaxed);
+      }
+      new_ptr
     }
   }
 }
